@@ -13,8 +13,8 @@ import (
 	"fmt"
 	"testing"
 
-	kit "github.com/cloudflare/circl/internal/verifref/c02kit"
 	"github.com/cloudflare/circl/internal/verifmc"
+	kit "github.com/cloudflare/circl/internal/verifref/c02kit"
 	"github.com/cloudflare/circl/sign"
 	"github.com/cloudflare/circl/sign/ed25519"
 	"github.com/cloudflare/circl/sign/ed448"
@@ -182,7 +182,9 @@ func c02MldsaAPIs() []c02MldsaAPI {
 			func(sk interface{}, msg, ctx []byte, rnd bool, sig []byte) error {
 				return mldsa44.SignTo(sk.(*mldsa44.PrivateKey), msg, ctx, rnd, sig)
 			},
-			func(pk interface{}, msg, ctx, sig []byte) bool { return mldsa44.Verify(pk.(*mldsa44.PublicKey), msg, ctx, sig) },
+			func(pk interface{}, msg, ctx, sig []byte) bool {
+				return mldsa44.Verify(pk.(*mldsa44.PublicKey), msg, ctx, sig)
+			},
 			func(sk interface{}, msg []byte) ([]byte, error) {
 				return sk.(*mldsa44.PrivateKey).Sign(nil, msg, crypto.Hash(0))
 			}},
@@ -204,7 +206,9 @@ func c02MldsaAPIs() []c02MldsaAPI {
 			func(sk interface{}, msg, ctx []byte, rnd bool, sig []byte) error {
 				return mldsa65.SignTo(sk.(*mldsa65.PrivateKey), msg, ctx, rnd, sig)
 			},
-			func(pk interface{}, msg, ctx, sig []byte) bool { return mldsa65.Verify(pk.(*mldsa65.PublicKey), msg, ctx, sig) },
+			func(pk interface{}, msg, ctx, sig []byte) bool {
+				return mldsa65.Verify(pk.(*mldsa65.PublicKey), msg, ctx, sig)
+			},
 			func(sk interface{}, msg []byte) ([]byte, error) {
 				return sk.(*mldsa65.PrivateKey).Sign(nil, msg, crypto.Hash(0))
 			}},
@@ -226,7 +230,9 @@ func c02MldsaAPIs() []c02MldsaAPI {
 			func(sk interface{}, msg, ctx []byte, rnd bool, sig []byte) error {
 				return mldsa87.SignTo(sk.(*mldsa87.PrivateKey), msg, ctx, rnd, sig)
 			},
-			func(pk interface{}, msg, ctx, sig []byte) bool { return mldsa87.Verify(pk.(*mldsa87.PublicKey), msg, ctx, sig) },
+			func(pk interface{}, msg, ctx, sig []byte) bool {
+				return mldsa87.Verify(pk.(*mldsa87.PublicKey), msg, ctx, sig)
+			},
 			func(sk interface{}, msg []byte) ([]byte, error) {
 				return sk.(*mldsa87.PrivateKey).Sign(nil, msg, crypto.Hash(0))
 			}},
